@@ -28,7 +28,7 @@ RULE = (
 ASSUMPTIONS = [
     "metric programs are scalar-valued and insensitive to row order up to floating-point (1e-9 relative)",
     "group values of one column share one Python type (fairlearn sorts levels with numpy.unique)",
-    "finding D12 (internal column-name collisions) is excluded by region and probed separately",
+    "repaired finding D12 (internal column-name collisions) is part of the ordinary search (class 'name_collision')",
 ]
 
 
@@ -149,6 +149,8 @@ def check(case):
         tags.append("sample_params")
     if len(sf_cols) >= 2:
         tags.append("sf>=2")
+    if M.column_collision(case):
+        tags.append("name_collision")
     return tags
 
 
@@ -160,7 +162,7 @@ def in_d12(sub_name, case):
     return M.column_collision(case)
 
 
-REGIONS = {"D12": in_d12}
+REGIONS = {}  # D12 was repaired in /repo: its former region is part of the ordinary search (class 'name_collision')
 
 _D12_PROBE = {
     "n": 4,
@@ -175,7 +177,7 @@ _D12_PROBE = {
         {"name": "a_b", "func": "lin", "params": {"c": {"values": [0.0, 0.0, 0.0, 1.0], "kind": "list", "index": "default"}}},
     ],
 }
-PROBES = {"D12": [("cells", _D12_PROBE)]}
+PROBES = {}
 
 SUBS = [
     Sub("cells", check, strategy=_strategy, quick=1500, thorough=40000, shards=16,
